@@ -1,13 +1,32 @@
-"""AArch64 interpreter for the subset emitted by tools/genarm/ascon_armv8a_64.c."""
+"""AArch64 interpreter: the subset emitted by tools/genarm/ascon_armv8a_64.c plus the common base-ISA instructions a rewrite of
+the same function could plausibly use (frames with stp/ldp pre/post-index, flag-setting ALU ops, all condition codes,
+cbz/tbz, csel, bitfield aliases).  Anything else is reported as Unsupported (inconclusive), never guessed."""
 import re
 from emucore import Memory, Unsupported, Violation, parse_int, STATE_BASE, STACK_TOP, STACK_SIZE, RET_SENTINEL
 
 M64 = (1 << 64) - 1
+M32 = (1 << 32) - 1
 
 
-def ror64(v, n):
-    n &= 63
-    return ((v >> n) | (v << (64 - n))) & M64 if n else v
+def ror(v, n, bits):
+    n %= bits
+    m = (1 << bits) - 1
+    v &= m
+    return ((v >> n) | (v << (bits - n))) & m if n else v
+
+
+def sx(v, bits):
+    v &= (1 << bits) - 1
+    return v - (1 << bits) if v >> (bits - 1) else v
+
+
+CONDS = {'eq': lambda N, Z, C, V: Z == 1, 'ne': lambda N, Z, C, V: Z == 0, 'cs': lambda N, Z, C, V: C == 1, 'hs': lambda N, Z, C, V: C == 1,
+         'cc': lambda N, Z, C, V: C == 0, 'lo': lambda N, Z, C, V: C == 0, 'mi': lambda N, Z, C, V: N == 1, 'pl': lambda N, Z, C, V: N == 0,
+         'vs': lambda N, Z, C, V: V == 1, 'vc': lambda N, Z, C, V: V == 0, 'hi': lambda N, Z, C, V: C == 1 and Z == 0,
+         'ls': lambda N, Z, C, V: not (C == 1 and Z == 0), 'ge': lambda N, Z, C, V: N == V, 'lt': lambda N, Z, C, V: N != V,
+         'gt': lambda N, Z, C, V: Z == 0 and N == V, 'le': lambda N, Z, C, V: not (Z == 0 and N == V), 'al': lambda N, Z, C, V: True}
+INVERT = {'eq': 'ne', 'ne': 'eq', 'cs': 'cc', 'hs': 'lo', 'cc': 'cs', 'lo': 'hs', 'mi': 'pl', 'pl': 'mi', 'vs': 'vc', 'vc': 'vs', 'hi': 'ls', 'ls': 'hi',
+          'ge': 'lt', 'lt': 'ge', 'gt': 'le', 'le': 'gt'}
 
 
 class A64:
@@ -18,39 +37,102 @@ class A64:
             return int(m.group(2)), m.group(1) == 'w'
         if s in ('xzr', 'wzr'):
             return 31, s[0] == 'w'
-        if s == 'sp':
-            return 32, False
+        if s in ('sp', 'wsp'):
+            return 32, s == 'wsp'
+        if s in ('fp',):
+            return 29, False
+        if s in ('lr',):
+            return 30, False
         raise Unsupported('register %r' % s)
 
     def get(self, x, s):
         r, w = self.reg(s)
         v = 0 if r == 31 else x[r]
-        return v & 0xffffffff if w else v
+        return v & M32 if w else v
 
     def put(self, x, s, v):
         r, w = self.reg(s)
         if r == 31:
             return
-        x[r] = (v & 0xffffffff) if w else (v & M64)
+        x[r] = (v & M32) if w else (v & M64)
 
-    def op2(self, x, ops):
-        if ops[0].startswith('#') or re.fullmatch(r'-?(0x)?[0-9a-fA-F]+', ops[0]):
-            return parse_int(ops[0]) & M64
+    def bits(self, s):
+        return 32 if self.reg(s)[1] else 64
+
+    def is_imm(self, s):
+        s = s.strip()
+        return s.startswith('#') or re.fullmatch(r'-?(0x)?[0-9a-fA-F]+', s) is not None
+
+    def op2(self, x, ops, bits):
+        """immediate | reg | reg, <shift> #n | reg, <extend> [#n]"""
+        if self.is_imm(ops[0]):
+            v = parse_int(ops[0])
+            if len(ops) > 1:
+                m = re.fullmatch(r'lsl\s*#?(\d+)', ops[1].strip().lower())
+                if not m:
+                    raise Unsupported('shifted immediate %r' % ops[1])
+                v <<= int(m.group(1))
+            return v & ((1 << bits) - 1)
         v = self.get(x, ops[0])
         if len(ops) > 1:
-            m = re.fullmatch(r'(ror|lsl|lsr)\s*#?(\d+)', ops[1].strip().lower())
-            if not m:
-                raise Unsupported('shifted operand %r' % ops[1])
-            n = int(m.group(2))
-            v = ror64(v, n) if m.group(1) == 'ror' else (v << n) & M64 if m.group(1) == 'lsl' else v >> n
-        return v
+            o = ops[1].strip().lower()
+            m = re.fullmatch(r'(ror|lsl|lsr|asr)\s*#?(\d+)', o)
+            if m:
+                n = int(m.group(2))
+                if n >= bits:
+                    raise Violation('encoding', 'shift amount %d out of range' % n)
+                k = m.group(1)
+                v &= (1 << bits) - 1
+                v = ror(v, n, bits) if k == 'ror' else (v << n) if k == 'lsl' else (v >> n) if k == 'lsr' else (sx(v, bits) >> n)
+            else:
+                m = re.fullmatch(r'(uxtb|uxth|uxtw|uxtx|sxtb|sxth|sxtw|sxtx)(?:\s*#?(\d+))?', o)
+                if not m:
+                    raise Unsupported('operand modifier %r' % ops[1])
+                w = {'b': 8, 'h': 16, 'w': 32, 'x': 64}[m.group(1)[3]]
+                v = (v & ((1 << w) - 1)) if m.group(1)[0] == 'u' else sx(v, w)
+                v <<= int(m.group(2) or 0)
+        return v & ((1 << bits) - 1)
 
-    def addr(self, x, s):
-        m = re.fullmatch(r'\[\s*(\w+)\s*(?:,\s*#?(-?\w+)\s*)?\]', s.strip())
+    def addr(self, x, ops):
+        """ops: the memory operand and whatever follows it -> (address, writeback register or None, new base value)"""
+        s = ops[0].strip()
+        m = re.fullmatch(r'\[\s*(\w+)\s*(?:,\s*([^\]]+?)\s*)?\](!?)', s)
         if not m:
             raise Unsupported('addressing mode %r' % s)
         r, _ = self.reg(m.group(1))
-        return (x[r] + (parse_int(m.group(2)) if m.group(2) else 0)) & M64
+        if r == 31:
+            raise Unsupported('zero register as base')
+        base = x[r]
+        off = 0
+        if m.group(2):
+            parts = [p.strip() for p in m.group(2).split(',')]
+            if self.is_imm(parts[0]):
+                off = parse_int(parts[0])
+            else:
+                off = self.get(x, parts[0])
+                if len(parts) > 1:
+                    mm = re.fullmatch(r'(lsl|uxtw|sxtw|sxtx)(?:\s*#?(\d+))?', parts[1].lower())
+                    if not mm:
+                        raise Unsupported('index modifier %r' % parts[1])
+                    if mm.group(1) == 'uxtw':
+                        off &= M32
+                    elif mm.group(1) == 'sxtw':
+                        off = sx(off, 32)
+                    off <<= int(mm.group(2) or 0)
+        if m.group(3) == '!':                     # pre-index
+            a = (base + off) & M64
+            return a, r, a
+        if len(ops) > 1 and self.is_imm(ops[1]) and not m.group(2):    # post-index
+            return base & M64, r, (base + parse_int(ops[1])) & M64
+        return (base + off) & M64, None, None
+
+    def check_access(self, x, a, size, src, base_is_sp):
+        if base_is_sp and x[32] % 16:
+            raise Violation('stack-misaligned', '%s uses sp = 0x%x, which is not 16-byte aligned' % (src, x[32]))
+        if STACK_TOP - STACK_SIZE <= a < x[32]:
+            raise Violation('access-below-stack-pointer', '%s touches 0x%x while sp = 0x%x' % (src, a, x[32]))
+        if a % size:
+            raise Violation('misaligned-access', '%s at 0x%x' % (src, a))
 
     def call(self, prog, entry, state_mem, first_round, max_insn=200000):
         mem = Memory(big_endian=False)
@@ -63,9 +145,32 @@ class A64:
         x[0] = STATE_BASE
         x[1] = (0xdeadbeef00000000 | first_round)       # only the low 8 bits of w1 are the argument (uint8_t)
         pc = prog.labels[entry]
-        Z = C = 0
+        N = Z = C = V = 0
         n = 0
         problems = []
+
+        def setflags_logic(v, bits):
+            nonlocal N, Z, C, V
+            v &= (1 << bits) - 1
+            N, Z, C, V = v >> (bits - 1), int(v == 0), 0, 0
+
+        def addsub(a, b, sub, bits, carry_in=None):
+            nonlocal N, Z, C, V
+            m = (1 << bits) - 1
+            a &= m
+            b &= m
+            bb = (~b & m) if sub else b
+            cin = (1 if sub else 0) if carry_in is None else carry_in
+            full = a + bb + cin
+            r = full & m
+            flags = (r >> (bits - 1), int(r == 0), int(full > m), int(((a ^ r) & (bb ^ r)) >> (bits - 1) & 1))
+            return r, flags
+
+        def label(t):
+            if t not in prog.labels:
+                raise Unsupported('branch target %r' % t)
+            return prog.labels[t]
+
         while True:
             if n >= max_insn:
                 raise Violation('no-return', 'more than %d instructions executed' % max_insn)
@@ -74,52 +179,154 @@ class A64:
             mn, ops, src = prog.insns[pc]
             n += 1
             npc = pc + 1
-            if mn in ('eor', 'and', 'bic', 'orr', 'add', 'sub'):
-                a, b = self.get(x, ops[1]), self.op2(x, ops[2:])
-                v = a ^ b if mn == 'eor' else a & b if mn == 'and' else a & ~b if mn == 'bic' else a | b if mn == 'orr' else a + b if mn == 'add' else a - b
+            if mn in ('eor', 'and', 'bic', 'orr', 'orn', 'eon', 'ands', 'bics'):
+                bits = self.bits(ops[0])
+                a, b = self.get(x, ops[1]), self.op2(x, ops[2:], bits)
+                k = mn.rstrip('s') if mn in ('ands', 'bics') else mn
+                m = (1 << bits) - 1
+                v = a ^ b if k == 'eor' else a & b if k == 'and' else a & ~b if k == 'bic' else a | b if k == 'orr' else a | (~b & m) if k == 'orn' else a ^ (~b & m)
+                v &= m
                 self.put(x, ops[0], v)
-            elif mn == 'ror':
-                self.put(x, ops[0], ror64(self.get(x, ops[1]), parse_int(ops[2])))
+                if mn in ('ands', 'bics'):
+                    setflags_logic(v, bits)
+            elif mn == 'tst':
+                bits = self.bits(ops[0])
+                setflags_logic(self.get(x, ops[0]) & self.op2(x, ops[1:], bits), bits)
+            elif mn in ('add', 'sub', 'adds', 'subs'):
+                bits = self.bits(ops[0])
+                r, fl = addsub(self.get(x, ops[1]), self.op2(x, ops[2:], bits), mn.startswith('sub'), bits)
+                self.put(x, ops[0], r)
+                if mn.endswith('s'):
+                    N, Z, C, V = fl
+            elif mn in ('cmp', 'cmn'):
+                bits = self.bits(ops[0])
+                r, fl = addsub(self.get(x, ops[0]), self.op2(x, ops[1:], bits), mn == 'cmp', bits)
+                N, Z, C, V = fl
+            elif mn in ('neg', 'negs'):
+                bits = self.bits(ops[0])
+                r, fl = addsub(0, self.op2(x, ops[1:], bits), True, bits)
+                self.put(x, ops[0], r)
+                if mn == 'negs':
+                    N, Z, C, V = fl
+            elif mn in ('ror', 'lsl', 'lsr', 'asr'):
+                bits = self.bits(ops[0])
+                a = self.get(x, ops[1])
+                sh = (parse_int(ops[2]) if self.is_imm(ops[2]) else self.get(x, ops[2])) % bits
+                if self.is_imm(ops[2]) and not 0 <= parse_int(ops[2]) < bits:
+                    raise Violation('encoding', 'shift amount out of range in: %s' % src)
+                v = ror(a, sh, bits) if mn == 'ror' else (a << sh) if mn == 'lsl' else (a >> sh) if mn == 'lsr' else (sx(a, bits) >> sh)
+                self.put(x, ops[0], v)
+            elif mn == 'extr':
+                bits = self.bits(ops[0])
+                hi, lo, lsb = self.get(x, ops[1]), self.get(x, ops[2]), parse_int(ops[3])
+                self.put(x, ops[0], (((hi << bits) | lo) >> lsb) & ((1 << bits) - 1))
+            elif mn in ('ubfx', 'sbfx', 'ubfiz'):
+                bits = self.bits(ops[0])
+                a, lsb, w = self.get(x, ops[1]), parse_int(ops[2]), parse_int(ops[3])
+                if mn == 'ubfx':
+                    v = (a >> lsb) & ((1 << w) - 1)
+                elif mn == 'sbfx':
+                    v = sx((a >> lsb) & ((1 << w) - 1), w)
+                else:
+                    v = (a & ((1 << w) - 1)) << lsb
+                self.put(x, ops[0], v)
+            elif mn in ('uxtb', 'uxth', 'sxtb', 'sxth', 'sxtw', 'uxtw'):
+                w = {'b': 8, 'h': 16, 'w': 32}[mn[3]]
+                a = self.get(x, ops[1])
+                self.put(x, ops[0], (a & ((1 << w) - 1)) if mn[0] == 'u' else sx(a, w))
+            elif mn == 'rev':
+                bits = self.bits(ops[0])
+                self.put(x, ops[0], int.from_bytes(self.get(x, ops[1]).to_bytes(bits // 8, 'little'), 'big'))
             elif mn == 'mov':
-                self.put(x, ops[0], self.op2(x, ops[1:]))
+                self.put(x, ops[0], self.op2(x, ops[1:], self.bits(ops[0])))
             elif mn == 'mvn':
-                self.put(x, ops[0], ~self.op2(x, ops[1:]))
-            elif mn == 'cmp':
-                a, b = self.get(x, ops[0]), self.op2(x, ops[1:])
-                Z, C = int(a == b), int(a >= b)
-            elif mn in ('beq', 'b.eq', 'bne', 'b.ne', 'b'):
-                take = True if mn == 'b' else (Z == 1) if mn in ('beq', 'b.eq') else (Z == 0)
-                if ops[0] not in prog.labels:
-                    raise Unsupported('branch target %r' % ops[0])
-                if take:
-                    npc = prog.labels[ops[0]]
+                self.put(x, ops[0], ~self.op2(x, ops[1:], self.bits(ops[0])))
+            elif mn in ('movz', 'movn', 'movk'):
+                bits = self.bits(ops[0])
+                imm = parse_int(ops[1])
+                sh = 0
+                if len(ops) > 2:
+                    m = re.fullmatch(r'lsl\s*#?(\d+)', ops[2].strip().lower())
+                    if not m:
+                        raise Unsupported('operand %r' % ops[2])
+                    sh = int(m.group(1))
+                if not 0 <= imm <= 0xffff or sh % 16 or sh >= bits:
+                    raise Violation('encoding', 'bad wide immediate in: %s' % src)
+                if mn == 'movz':
+                    v = imm << sh
+                elif mn == 'movn':
+                    v = ~(imm << sh)
+                else:
+                    v = (self.get(x, ops[0]) & ~(0xffff << sh)) | (imm << sh)
+                self.put(x, ops[0], v)
+            elif mn in ('csel', 'csinc', 'csinv', 'csneg'):
+                c = ops[3].strip().lower()
+                if c not in CONDS:
+                    raise Unsupported('condition %r' % c)
+                bits = self.bits(ops[0])
+                if CONDS[c](N, Z, C, V):
+                    v = self.get(x, ops[1])
+                else:
+                    b = self.get(x, ops[2])
+                    v = b if mn == 'csel' else b + 1 if mn == 'csinc' else ~b if mn == 'csinv' else -b
+                self.put(x, ops[0], v)
+            elif mn in ('cset', 'csetm'):
+                c = ops[1].strip().lower()
+                if c not in CONDS:
+                    raise Unsupported('condition %r' % c)
+                t = CONDS[c](N, Z, C, V)
+                self.put(x, ops[0], (1 if mn == 'cset' else -1) if t else 0)
+            elif mn == 'nop':
+                pass
+            elif mn == 'b' or (mn.startswith('b.') and mn[2:] in CONDS) or (mn[0] == 'b' and mn[1:] in CONDS and mn not in ('bl', 'blr', 'bic', 'bics')):
+                c = 'al' if mn == 'b' else mn[2:] if mn.startswith('b.') else mn[1:]
+                t = label(ops[0])
+                if CONDS[c](N, Z, C, V):
+                    npc = t
+            elif mn in ('cbz', 'cbnz'):
+                t = label(ops[1])
+                if (self.get(x, ops[0]) == 0) == (mn == 'cbz'):
+                    npc = t
+            elif mn in ('tbz', 'tbnz'):
+                t = label(ops[2])
+                bit = (self.get(x, ops[0]) >> parse_int(ops[1])) & 1
+                if (bit == 0) == (mn == 'tbz'):
+                    npc = t
             elif mn == 'ldr' and ops[1].startswith('='):
                 self.put(x, ops[0], parse_int(ops[1][1:]))
-            elif mn in ('ldr', 'str'):
-                a = self.addr(x, ops[1])
-                size = 4 if self.reg(ops[0])[1] else 8
-                if STACK_TOP - STACK_SIZE <= a < x[32]:
-                    raise Violation('access-below-stack-pointer', '%s touches 0x%x while sp = 0x%x' % (src, a, x[32]))
-                if a % size:
-                    raise Violation('misaligned-access', '%s at 0x%x' % (src, a))
-                if mn == 'ldr':
-                    self.put(x, ops[0], mem.load(a, size, src))
+            elif mn in ('ldr', 'str', 'ldur', 'stur', 'ldrb', 'strb', 'ldrh', 'strh', 'ldrsw'):
+                a, wb, nb = self.addr(x, ops[1:])
+                size = 1 if mn.endswith('b') else 2 if mn.endswith('h') else 4 if (mn == 'ldrsw' or self.reg(ops[0])[1]) else 8
+                if wb is not None and a == nb:          # pre-index: the base register is updated first
+                    x[wb] = nb
+                    wb = None
+                self.check_access(x, a, size if not mn.endswith('ur') else 1, src, ops[1].strip().lower().startswith('[sp'))
+                if mn.startswith('ld'):
+                    v = mem.load(a, size, src)
+                    self.put(x, ops[0], sx(v, 32) if mn == 'ldrsw' else v)
                 else:
-                    mem.store(a, size, self.get(x, ops[0]), src)
+                    mem.store(a, size, self.get(x, ops[0]) & ((1 << (8 * size)) - 1), src)
+                if wb is not None:
+                    x[wb] = nb
             elif mn in ('ldp', 'stp'):
-                a = self.addr(x, ops[2])
-                if STACK_TOP - STACK_SIZE <= a < x[32]:
-                    raise Violation('access-below-stack-pointer', '%s touches 0x%x while sp = 0x%x' % (src, a, x[32]))
-                if a % 8:
-                    raise Violation('misaligned-access', '%s at 0x%x' % (src, a))
+                size = 4 if self.reg(ops[0])[1] else 8
+                a, wb, nb = self.addr(x, ops[2:])
+                base_sp = ops[2].strip().lower().startswith('[sp')
+                if wb is not None and a == nb:          # pre-index: the base register is updated first
+                    x[wb] = nb
+                    wb = None
+                self.check_access(x, a, size, src, base_sp)
                 for i in range(2):
                     if mn == 'ldp':
-                        self.put(x, ops[i], mem.load(a + 8 * i, 8, src))
+                        self.put(x, ops[i], mem.load(a + size * i, size, src))
                     else:
-                        mem.store(a + 8 * i, 8, self.get(x, ops[i]), src)
+                        mem.store(a + size * i, size, self.get(x, ops[i]), src)
+                if wb is not None:
+                    x[wb] = nb
             elif mn == 'ret':
-                if x[30] != RET_SENTINEL:
-                    problems.append(('return-address', 'ret to 0x%x' % x[30]))
+                tgt = x[30] if not ops or not ops[0] else self.get(x, ops[0])
+                if tgt != RET_SENTINEL:
+                    problems.append(('return-address', 'ret to 0x%x' % tgt))
                 break
             else:
                 raise Unsupported('mnemonic %r in: %s' % (mn, src))
